@@ -95,6 +95,9 @@ pub fn gen(rng: &mut Rng, cfg: &PCfg, size: usize) -> Doc {
     let n_clauses = match size {
         0 => rng.below(4),
         1 => rng.below(12),
+        // rare "huge" documents: beyond two default chunks, so that realign runs with the
+        // shipped chunk size too
+        3 => rng.range(3000, 5000),
         _ => rng.range(8, 60),
     };
     let has_header = rng.chance(7, 10);
